@@ -542,7 +542,7 @@ func (c *c03Ctx) evalSource(s *rsource, outer *renv) *rrel {
 		// join columns for USING / NATURAL
 		var shared []string
 		if s.jmode == "using" {
-			shared = []string{s.usingCol}
+			shared = strings.Split(s.usingCol, ", ")
 		} else if s.jmode == "natural" {
 			for _, lc := range l.cols {
 				for _, rc := range r.cols {
@@ -1114,27 +1114,26 @@ func c03Case(w *core.Worker, i int) {
 		w.Violation(sig, fmt.Sprintf("%s [a has %d rows, cpu %d]: %s", q, na, cpu, what), c03Replay{Files: small(files), Query: q, CPU: cpu, Got: got, Want: want})
 	}
 	// (1) reference evaluator
-	for k := 0; k < 8; k++ {
-		q := genQueryC03(r)
+	judgeQ := func(q *rquery) {
 		sql := q.SQL()
 		qtexts = append(qtexts, sql)
 		ctx.unspec, ctx.tooBig = false, false
 		want := ctx.evalQuery(q)
 		if ctx.tooBig {
 			w.Count("queries_skipped_too_big", 1)
-			continue
+			return
 		}
 		res := s.Exec(sql)
 		if res.Err != nil || len(res.Views) != 1 {
 			if ctx.unspec {
-				continue
+				return
 			}
 			viol("query-error", sql, fmt.Sprint(res.Err), "", "")
-			continue
+			return
 		}
 		if ctx.unspec {
 			w.Count("queries_unspecified", 1)
-			continue
+			return
 		}
 		var gotRows, wantRows [][]string
 		for _, row := range res.Views[0].Rows {
@@ -1157,7 +1156,7 @@ func c03Case(w *core.Worker, i int) {
 		}
 		if d := bagDiff(bagOf(gotRows), bagOf(wantRows)); d != "" {
 			viol("rows-differ:"+c03Shape(q), sql, d, fmt.Sprint(len(gotRows)), fmt.Sprint(len(wantRows)))
-			continue
+			return
 		}
 		if q.single {
 			for ri := range gotRows {
@@ -1166,6 +1165,26 @@ func c03Case(w *core.Worker, i int) {
 					break
 				}
 			}
+		}
+	}
+	for k := 0; k < 8; k++ {
+		judgeQ(genQueryC03(r))
+	}
+	// multi-column USING / NATURAL outer joins: several merged columns, NULLs in the first of them
+	for _, jk := range []string{"LEFT", "RIGHT", "FULL", "INNER"} {
+		for _, uc := range []string{"k, id", "id, k", ""} {
+			if r.P(50) {
+				continue
+			}
+			j := &rsource{kind: "join", l: &rsource{kind: "table", base: "a", alias: "a"}, r: &rsource{kind: "table", base: "b", alias: "b"}, jkind: jk, jmode: "using", usingCol: uc}
+			if uc == "" {
+				j.jmode = "natural"
+			}
+			q := &rquery{src: j, sel: []*rex{{k: "col", tab: "", col: "id"}, {k: "col", tab: "", col: "k"}, icol("a", "v"), icol("b", "w")}}
+			if r.P(40) {
+				q.where = &rex{k: "isnull", a: &rex{k: "col", tab: "", col: "k"}}
+			}
+			judgeQ(q)
 		}
 	}
 	// (2) ternary logic partition with predicates over built-in functions
